@@ -3,7 +3,8 @@ import json
 from vlib import Violation, ToolError, log
 
 RULE = ("one history per (dimension, size bound): header, every emitted D-set, end; the End action compares the "
-        "canonical forms seen with the classes of the universe of all tuples of involutions enumerated by TLC; "
+        "canonical forms seen with the classes of the universe of all tuples of involutions enumerated by TLC "
+        "(first operation up to conjugacy, lemma MC_SetClasses); "
         "non-trivial = distinct emitted D-set with >= 2 chambers")
 
 
@@ -28,7 +29,10 @@ def run(ctx):
         case = m.pop("case")
         raise Violation(f"BackTrackIterator does not yield every extractable node exactly once: {json.dumps(m)[:300]}",
                         replay_lines=[json.dumps(case)], replay_name="tree.ndjson")
-    runs = "1:7,2:6,3:5" if ctx.quick else "1:8,2:7,3:5"
+    # the universe of Trace_C06 fixes the first operation up to conjugacy; the lemma that this loses no class
+    ctx.mc("MC_SetClasses", cfg="MC_SetClasses" if ctx.quick else "MC_SetClasses_t", workers=12,
+           universe="classes of all tuples of involutions = classes of tuples with normal-form first operation, n <= %s (dim 1,2,3)" % ("6,5,4" if ctx.quick else "7,6,5"))
+    runs = "1:8,2:6,3:5" if ctx.quick else "1:10,2:7,3:6"
     ev = ctx.work / "events.ndjson"
     ctx.dsv("C06", "drive", "--out", ev, "--runs", runs, timeout=3600)
     for ln in open(ev):
